@@ -24,7 +24,17 @@ META = {
 }
 GROUP = "tensor"
 REQ = "From RV Require Import Prelude.\nFrom Tensor Require Import Overlap Layout.\nOpen Scope N_scope."
-THEOREMS = []
+THEOREMS = ["C06_try_from_data_exact", "C06_from_data_with_strides_exact", "C06_from_slice_with_strides_exact",
+            "C06_from_storage_and_layout_exact", "C06_expanded_layout_exact",
+            "C06_try_from_data_establishes_inv", "C06_from_data_establishes_inv", "C06_contiguous_unique",
+            "C06_from_data_with_strides_establishes_inv", "C06_from_slice_with_strides_establishes_inv",
+            "C06_from_storage_and_layout_establishes_inv", "C06_expanded_layout_establishes_inv",
+            "C06_index_checked", "C06_index_some_in_bounds", "C06_norm_len", "C06_weak_index_in_bounds",
+            "C06_inv_permute", "C06_inv_shrink", "C06_inv_mono", "C06_oracle_inv", "C06_oracle_injective",
+            "C06_try_from_data_old_refuted", "C06_try_from_data_old_debug_panics",
+            "C06_from_data_with_strides_old_refuted", "C06_from_slice_with_strides_old_refuted",
+            "C06_from_storage_and_layout_old_refuted", "C06_expanded_layout_old_refuted",
+            "C06_fixed_on_witnesses", "C06_nonvacuous"]
 
 
 def main(ctx):
